@@ -154,3 +154,24 @@ Theorem C03_code_po2_reporters_are_the_model : forall bits mv mode,
   ReportGen.gen_po2_min mv (po2_max_exp bits mv) = rneg (po2_max (P2 bits mv mode)).
 Proof. exact ReportLink.link_po2_reporters. Qed.
 Print Assumptions C03_code_po2_reporters_are_the_model.
+
+(* ---- _clip_power_of_two regenerated from the source on every run (coq/gen/Po2CallGen.v): the epsilon test, the max_value clamp,
+        the clip to the exponent interval.  With the exact base-2 logarithm (round / floor) it IS clip_po2, on which every theorem
+        above is stated; whatever the float logarithm returns, the exponent stays inside the interval (doubled under
+        quadratic_approximation). ---- *)
+From QV Require Import Link.Po2CallLink.
+From QVGen Require Po2CallGen.
+Theorem C03_source_clip_translated : Po2CallGen.po2call_translation_ok = true.
+Proof. exact link_po2call_ok. Qed.
+Print Assumptions C03_source_clip_translated.
+Theorem C03_source_clip_power_of_two_is_the_model : forall (floor_mode has_mv : bool) mn mx mv xabs,
+  Po2CallGen.gen_clip_po2 exp_rnd exp_floor exp_rnd exp_floor floor_mode false has_mv mn mx mv xabs =
+  clip_po2 (if floor_mode then LFloor else LRnd) mn mx (if has_mv then Some mv else None) xabs.
+Proof. exact link_clip_po2. Qed.
+Print Assumptions C03_source_clip_power_of_two_is_the_model.
+Theorem C03_source_exponent_inside_the_interval_for_any_logarithm : forall lgr lgf lgrs lgfs (floor_mode quad has_mv : bool) mn mx mv xabs,
+  mn <= mx ->
+  exists k, mn <= k <= mx /\ Po2CallGen.gen_clip_po2 lgr lgf lgrs lgfs floor_mode quad has_mv mn mx mv xabs =
+                             (if quad then (if rlt xabs eps32 then k else 2 * k) else k).
+Proof. exact gen_clip_po2_in_interval. Qed.
+Print Assumptions C03_source_exponent_inside_the_interval_for_any_logarithm.
